@@ -173,6 +173,36 @@ def args_tokens(args, cvals, comps, flavour):
     return ", ".join(toks)
 
 
+def shorthand_tokens(args, cvals, comps, flavour):
+    """the `t!(i18n, key, name, <comp>)` argument syntax: (let-bindings, bare tokens)."""
+    lets, toks = [], []
+    for name in sorted(args):
+        lets.append("let %s = %s;" % (ident(name), rust_str(args[name])))
+        toks.append(ident(name))
+    for name in sorted(cvals):
+        ty, n = cvals[name]
+        lit = count_literal(ty, n)
+        lets.append("let %s = %s;" % (ident(name), lit if flavour == "string" else "move || %s" % lit))
+        toks.append(ident(name))
+    for c in sorted(comps):
+        lets.append("let %s = %s(%s);" % (ident(c), "dc" if flavour == "string" else "vc", rust_str(c)))
+        toks.append("<%s>" % ident(c))
+    return " ".join(lets), ", ".join(toks)
+
+
+def direct_comp_tokens(args, cvals, comps):
+    """(`<c> = <span attr:data-c="c" />` form, the equivalent closure form) for the view flavour."""
+    base = []
+    for name in sorted(args):
+        base.append("%s = %s" % (ident(name), rust_str(args[name])))
+    for name in sorted(cvals):
+        ty, n = cvals[name]
+        base.append("%s = move || %s" % (ident(name), count_literal(ty, n)))
+    direct = base + ['<%s> = <span attr:data-c=%s />' % (ident(c), rust_str(c)) for c in sorted(comps)]
+    closure = base + ['<%s> = move |ch: leptos::children::ChildrenFn| view! { <span attr:data-c=%s>{move || ch()}</span> }' % (ident(c), rust_str(c)) for c in sorted(comps)]
+    return ", ".join(direct), ", ".join(closure)
+
+
 class ProbeCrate:
     def __init__(self, name, project, fmt="json", features=None):
         self.name = name
